@@ -125,6 +125,11 @@ class ScopeContext:
                     exc_tb=exc_tb,
                 )
 
+        except BaseException as exc:
+            # failed or cancelled cleanup fails the scope - remaining tasks have to be cancelled
+            exc_type, exc_val, exc_tb = type(exc), exc, exc.__traceback__
+            raise
+
         finally:
             try:
                 await self._task_group_context.__aexit__(
